@@ -1,9 +1,14 @@
 #!/bin/sh
-# tools/try_seed.sh <Cnn> <patch.diff> [extra check args]: apply a seeded change to /repo, run the check, undo it.
+# tools/try_seed.sh <Cnn> <patch.diff> [extra check args]
+# Run a check against /repo's HEAD with a seeded change applied - in a scratch COPY of the crates
+# the checks read (VERIF_REPO), so /repo itself is never modified and other checks can run at the
+# same time.  (Equivalent to: git -C /repo apply <file>; ./check ..; git -C /repo checkout -- .)
 P=$1; PATCH=$(readlink -f "$2"); shift 2
-git -C /repo diff --quiet || { echo "/repo has uncommitted changes"; exit 2; }
-git -C /repo apply "$PATCH" || { echo "patch does not apply"; exit 2; }
-cd /verif && ./check "$P" --no-evidence "$@"; RC=$?
-git -C /repo checkout -- .
+COPY=${VERIF_SCRATCH:-/var/tmp}/wild-seedrepo.$$
+rm -rf "$COPY"; mkdir -p "$COPY" || exit 2
+git -C /repo archive HEAD libwild linker-utils linker-layout linker-trace Cargo.toml Cargo.lock | tar -x -C "$COPY" || { echo "cannot export /repo HEAD"; rm -rf "$COPY"; exit 2; }
+( cd "$COPY" && git apply --unsafe-paths "$PATCH" ) || { echo "patch does not apply"; rm -rf "$COPY"; exit 2; }
+cd /verif && VERIF_REPO="$COPY" ./check "$P" --no-evidence "$@"; RC=$?
+rm -rf "$COPY"
 echo "check exit code: $RC"
 exit $RC
